@@ -534,4 +534,256 @@ theorem complete_currency_after {ℓ : Locale} {curs : List (List Char)} (hl : S
   unfold parseFormattedNumber
   simp only [htrim, hpct, currencyLoop_target hcur hother hstep]
 
+
+/-! ### date fields -/
+
+theorem utf8Size_digit {c : Char} (h : isDigit c = true) : c.utf8Size = 1 := by
+  unfold isDigit at h
+  simp only [Bool.and_eq_true, decide_eq_true_eq] at h
+  have a2 : c.toNat ≤ 57 := by
+    have : c.toNat ≤ ('9' : Char).toNat := h.2
+    simpa using this
+  unfold Char.utf8Size
+  have : c.val ≤ 127 := by
+    have : c.val.toNat ≤ 127 := by have : c.val.toNat = c.toNat := rfl; omega
+    exact UInt32.le_iff_toNat_le.mpr this
+  simp [this]
+
+theorem foldl_add_ones (l : List Char) (hl : ∀ c ∈ l, c.utf8Size = 1) (acc : Nat) :
+    (l.map Char.utf8Size).foldl (· + ·) acc = acc + l.length := by
+  induction l generalizing acc with
+  | nil => simp
+  | cons a r ih =>
+    simp only [List.map_cons, List.foldl_cons, List.length_cons]
+    rw [ih (fun c hc => hl c (by simp [hc])), hl a (by simp)]; omega
+
+theorem utf8Len_digits {t : List Char} (h : allDigits t = true) : utf8Len t = t.length := by
+  unfold utf8Len
+  rw [foldl_add_ones]
+  · simp
+  · intro c hc
+    unfold allDigits at h
+    exact utf8Size_digit (List.all_eq_true.mp h c hc)
+
+/-- `parse_day` on one or two digits -/
+theorem parseDay_digits {t : List Char} (hd : allDigits t = true) (hlen : t.length = 1 ∨ t.length = 2) :
+    parseDay t = some (digitsVal t, if t.length = 2 then ['d', 'd'] else ['d']) := by
+  unfold parseDay
+  rw [utf8Len_digits hd, hd]
+  have hne : t.isEmpty = false := by cases t <;> simp at hlen ⊢
+  rcases hlen with h | h <;> simp [h, hne]
+
+/-- `parse_month` on one or two digits -/
+theorem parseMonth_digits (ℓ : Locale) {t : List Char} (hd : allDigits t = true) (hlen : t.length = 1 ∨ t.length = 2) :
+    parseMonth ℓ t = some (digitsVal t, if t.length = 2 then ['m', 'm'] else ['m']) := by
+  unfold parseMonth
+  rw [utf8Len_digits hd, hd]
+  have hne : t.isEmpty = false := by cases t <;> simp at hlen ⊢
+  rcases hlen with h | h <;> simp [h, hne]
+
+/-- the year a two- or four-digit year text denotes: `00–29 → 20xx`, `30–99 → 19xx` -/
+def yearOf (v : Nat) : Nat := if v < 30 then 2000 + v else if v < 100 then 1900 + v else v
+def yearFmt (v : Nat) : List Char := if v < 100 then ['y', 'y'] else ['y', 'y', 'y', 'y']
+
+theorem parseYear_digits {t : List Char} (hd : allDigits t = true) (hlen : t.length = 2 ∨ t.length = 4) :
+    parseYear t = some (yearOf (digitsVal t), yearFmt (digitsVal t)) := by
+  unfold parseYear yearOf yearFmt
+  rw [utf8Len_digits hd, hd]
+  have h1 : (t.length != 2 && t.length != 4) = false := by rcases hlen with h | h <;> simp [h]
+  simp only [h1, Bool.false_eq_true, if_false, Bool.not_true]
+  by_cases ha : digitsVal t < 30
+  · have : digitsVal t < 100 := by omega
+    simp [ha, this]
+  · by_cases hb : digitsVal t < 100
+    · simp [ha, hb]
+    · simp [ha, hb]
+
+/-! ### splitting -/
+
+theorem splitOn_noSep {sep : Char} : ∀ {f : List Char}, f.contains sep = false → splitOn sep f = [f] := by
+  intro f
+  induction f with
+  | nil => intro _; rfl
+  | cons c cs ih =>
+    intro h
+    simp only [List.contains_cons, Bool.or_eq_false_iff, beq_eq_false_iff_ne, ne_eq] at h
+    unfold splitOn
+    have hc : (c == sep) = false := by simp; exact fun e => h.1 e.symm
+    simp [hc, ih h.2]
+
+theorem splitOn_append {sep : Char} (r : List Char) : ∀ {a : List Char}, a.contains sep = false →
+    splitOn sep (a ++ sep :: r) = a :: splitOn sep r := by
+  intro a
+  induction a with
+  | nil => intro _; simp [splitOn]
+  | cons c cs ih =>
+    intro h
+    simp only [List.contains_cons, Bool.or_eq_false_iff, beq_eq_false_iff_ne, ne_eq] at h
+    have hc : (c == sep) = false := by simp; exact fun e => h.1 e.symm
+    show splitOn sep (c :: (cs ++ sep :: r)) = (c :: cs) :: splitOn sep r
+    rw [splitOn]
+    simp [hc, ih h.2]
+
+theorem splitOn_three_fields {sep : Char} {p0 p1 p2 : List Char} (h0 : p0.contains sep = false)
+    (h1 : p1.contains sep = false) (h2 : p2.contains sep = false) :
+    splitOn sep (p0 ++ sep :: p1 ++ sep :: p2) = [p0, p1, p2] := by
+  have : p0 ++ sep :: p1 ++ sep :: p2 = p0 ++ sep :: (p1 ++ sep :: p2) := by simp
+  rw [this, splitOn_append _ h0, splitOn_append _ h1, splitOn_noSep h2]
+
+theorem dateSeparator_fields {sep : Char} (hsep : sep = '/' ∨ sep = '-' ∨ sep = '.') {p0 p1 p2 : List Char}
+    (h0 : fieldOk sep p0 = true) (h1 : fieldOk sep p1 = true) (h2 : fieldOk sep p2 = true) :
+    dateSeparator (p0 ++ sep :: p1 ++ sep :: p2) = some sep := by
+  unfold fieldOk at h0 h1 h2
+  unfold dateSeparator
+  rcases hsep with rfl | rfl | rfl
+  · simp
+  · simp at h0 h1 h2
+    simp [h0, h1, h2]
+  · simp at h0 h1 h2
+    simp [h0, h1, h2]
+
+theorem fieldOk_noSep {sep : Char} {f : List Char} (h : fieldOk sep f = true) : f.contains sep = false := by
+  unfold fieldOk at h
+  simp only [Bool.and_eq_true, Bool.not_eq_true'] at h
+  exact h.1
+
+theorem allDigits_not_contains {f : List Char} (hd : allDigits f = true) {c : Char} (hc : isDigit c = false) :
+    f.contains c = false := by
+  unfold allDigits at hd
+  cases h : f.contains c with
+  | false => rfl
+  | true =>
+    have := List.all_eq_true.mp hd c (by simpa using h)
+    rw [hc] at this; cases this
+
+theorem fieldOk_digits {sep : Char} (hsep : sep = '/' ∨ sep = '-' ∨ sep = '.') {f : List Char}
+    (hd : allDigits f = true) : fieldOk sep f = true := by
+  unfold fieldOk
+  have a := allDigits_not_contains hd (c := '/') (by decide)
+  have b := allDigits_not_contains hd (c := '-') (by decide)
+  have c := allDigits_not_contains hd (c := '.') (by decide)
+  simp only [List.contains_eq_mem, decide_eq_false_iff_not] at a b c
+  rcases hsep with rfl | rfl | rfl <;> simp [a, b, c]
+
+
+
+theorem isDateRendering_isDateText {ℓ : Locale} {t : List Char} {serial : Nat} {fmt : List Char}
+    (h : IsDateRendering ℓ t serial fmt) : IsDateText ℓ t serial fmt := by
+  obtain ⟨sep, p0, p1, p2, dayS, monthS, yearS, dayF, monthF, yearF, day, month, year,
+    hsep, ht, _, _, _, hlay, hd, hm, hy, hser, h1, h2⟩ := h
+  exact ⟨sep, p0, p1, p2, dayS, monthS, yearS, dayF, monthF, yearF, day, month, year,
+    hsep, ht, hlay, hd, hm, hy, hser, h1, h2⟩
+
+/-- **completeness of `parse_date`**: every date rendering is recognised with its serial and format -/
+theorem parseDate_complete {ℓ : Locale} {t : List Char} {serial : Nat} {fmt : List Char}
+    (h : IsDateRendering ℓ t serial fmt) : parseDate ℓ t = some (serial, fmt) := by
+  obtain ⟨sep, p0, p1, p2, dayS, monthS, yearS, dayF, monthF, yearF, day, month, year,
+    hsep, ht, f0, f1, f2, hlay, hd, hm, hy, hser, h1, h2⟩ := h
+  subst ht
+  unfold parseDate
+  rw [dateSeparator_fields hsep f0 f1 f2]
+  simp only
+  rw [splitOn_three_fields (fieldOk_noSep f0) (fieldOk_noSep f1) (fieldOk_noSep f2)]
+  simp only
+  have hrange : ((serial : Int) < 1 || (serial : Int) > 2958465) = false := by
+    simp only [Bool.or_eq_false_iff, decide_eq_false_iff_not, Int.not_lt]
+    omega
+  rcases hlay with ⟨hu, rfl, rfl, rfl, a1, a2, hf⟩ | ⟨hu, hdf, rfl, rfl, rfl, hf⟩ | ⟨hu, hdf, rfl, rfl, rfl, hf⟩
+  · simp only [hu, beq_self_eq_true, a1, a2, Bool.and_self, Bool.not_true, Bool.and_false, Bool.false_eq_true,
+      if_false, dateFields, if_true, hd, hm, hy, hser, hrange, dateFormat, hf, Int.toNat_natCast]
+  · have hu' : (utf8Len dayS == 4) = false := by simp [hu]
+    simp only [hu', Bool.false_and, Bool.false_eq_true, if_false, dateFields, hdf, if_true, hd, hm, hy, hser,
+      hrange, dateFormat, hf, Int.toNat_natCast, Bool.not_true]
+  · have hu' : (utf8Len monthS == 4) = false := by simp [hu]
+    simp only [hu', Bool.false_and, Bool.false_eq_true, if_false, dateFields, hdf, hd, hm, hy, hser,
+      hrange, dateFormat, hf, Int.toNat_natCast, Bool.not_false, if_true]
+
+
+/-! ### dates at the top level -/
+
+/-- the decidable non-shadowing condition on a date text's first and last characters: the first is
+    neither white space, nor `-`, nor the first character of a currency symbol; the last is a digit -/
+def DateEdgeOk (curs : List (List Char)) (t : List Char) : Bool :=
+  match t.head?, t.getLast? with
+  | some h, some z => !isWs h && h != '-' && isDigit z && curs.all (fun c => c.head? != some h)
+  | _, _ => false
+
+theorem date_toplevel {ℓ : Locale} {curs : List (List Char)} {t : List Char} {serial : Nat} {fmt : List Char}
+    (hc : CursOk ℓ curs = true) (he : DateEdgeOk curs t = true) (hp : parseDate ℓ t = some (serial, fmt)) :
+    parseFormattedNumber ℓ curs t = some (.serial serial, .date fmt) := by
+  obtain ⟨_, _, hok, _⟩ := cursOk_spec hc
+  unfold DateEdgeOk at he
+  split at he
+  · rename_i h z hh hz
+    simp only [Bool.and_eq_true, Bool.not_eq_true', bne_iff_ne, ne_eq, List.all_eq_true] at he
+    obtain ⟨⟨⟨hws, hminus⟩, hzd⟩, hcurs⟩ := he
+    have hne : t ≠ [] := by intro h0; rw [h0] at hh; cases hh
+    have htrim : trim t = t := by
+      have := trim_sandwich (pre := []) (post := []) (t := t) (by intro c hc'; cases hc') (by intro c hc'; cases hc') hne
+        (by intro c hc'; rw [hh] at hc'; cases hc'; exact hws)
+        (by intro c hc'; rw [hz] at hc'; cases hc'; exact isDigit_not_ws hzd)
+      simpa using this
+    have hpct : stripSuffix ['%'] t = none := by
+      apply stripSuffix_none_of_last (by simp)
+      rw [hz]; simp
+      intro e; rw [e] at hzd; revert hzd; decide
+    have hloop : currencyLoop ℓ t curs = none := by
+      apply currencyLoop_none
+      intro c hcm
+      obtain ⟨hcne, f, l, hf, hl, hfok, hlok⟩ := curOk_spec (hok c hcm)
+      apply currencyStep_none
+      · apply stripPrefix_none_of_head (by simp)
+        rw [hh]; simp; exact hminus
+      · apply stripPrefix_none_of_head hcne
+        exact fun e => hcurs c hcm (by rw [← e, hh])
+      · apply stripSuffix_none_of_last hcne
+        rw [hz, hl]; intro e; cases e
+        have := (okEdge_spec hlok).2.1
+        rw [hzd] at this; cases this
+    unfold parseFormattedNumber
+    simp only [htrim, hpct, hloop, hp]
+  · cases he
+
+theorem dateEdgeOk_of_digits {ℓ : Locale} {curs : List (List Char)} (hc : CursOk ℓ curs = true) {t : List Char}
+    {h z : Char} (hh : t.head? = some h) (hz : t.getLast? = some z) (hhd : isDigit h = true) (hzd : isDigit z = true) :
+    DateEdgeOk curs t = true := by
+  obtain ⟨_, _, hok, _⟩ := cursOk_spec hc
+  unfold DateEdgeOk
+  rw [hh, hz]
+  simp only [Bool.and_eq_true, Bool.not_eq_true', bne_iff_ne, ne_eq, List.all_eq_true]
+  refine ⟨⟨⟨isDigit_not_ws hhd, isDigit_ne hhd (by decide)⟩, hzd⟩, ?_⟩
+  intro c hcm
+  obtain ⟨_, f, l, hf, _, hfok, _⟩ := curOk_spec (hok c hcm)
+  rw [hf]; intro e; cases e
+  have := (okEdge_spec hfok).2.1
+  rw [hhd] at this; cases this
+
+theorem digits_head {t : List Char} (hd : allDigits t = true) (hne : t ≠ []) :
+    ∃ h, t.head? = some h ∧ isDigit h = true := by
+  cases t with
+  | nil => exact absurd rfl hne
+  | cons a r => exact ⟨a, rfl, List.all_eq_true.mp hd a (by simp)⟩
+
+theorem digits_last {t : List Char} (hd : allDigits t = true) (hne : t ≠ []) :
+    ∃ z, t.getLast? = some z ∧ isDigit z = true :=
+  allDigits_getLast (fun c hc => List.all_eq_true.mp hd c hc) hne
+
+/-- the edge condition holds for `a sep b sep c` when `a` and `c` are non-empty digit strings -/
+theorem dateEdgeOk_fields {ℓ : Locale} {curs : List (List Char)} (hc : CursOk ℓ curs = true) {sep : Char}
+    {p0 p1 p2 : List Char} (h0 : allDigits p0 = true) (n0 : p0 ≠ []) (h2 : allDigits p2 = true) (n2 : p2 ≠ []) :
+    DateEdgeOk curs (p0 ++ sep :: p1 ++ sep :: p2) = true := by
+  obtain ⟨h, hh, hhd⟩ := digits_head h0 n0
+  obtain ⟨z, hz, hzd⟩ := digits_last h2 n2
+  apply dateEdgeOk_of_digits hc (h := h) (z := z) _ _ hhd hzd
+  · have : p0 ++ sep :: p1 ++ sep :: p2 = p0 ++ (sep :: p1 ++ sep :: p2) := by simp
+    rw [this, head?_append_of_ne_nil n0]; exact hh
+  · have : p0 ++ sep :: p1 ++ sep :: p2 = (p0 ++ sep :: p1 ++ [sep]) ++ p2 := by simp
+    rw [this, getLast?_append_of_ne_nil n2]; exact hz
+
+def dayFmt (t : List Char) : List Char := if t.length = 2 then ['d', 'd'] else ['d']
+def monthFmt (t : List Char) : List Char := if t.length = 2 then ['m', 'm'] else ['m']
+
+theorem len_ne_nil {t : List Char} (h : t.length = 1 ∨ t.length = 2) : t ≠ [] := by
+  intro h0; subst h0; simp at h
+
 end IronCalc.Number
